@@ -14,8 +14,11 @@ package main
 //	cell   <col> <uni> <sc> <val> <min> <max>              HeatWrite + SparkWrite of Scale(..)
 //	strlen <col> <hex>                                     color.StrLen
 //	hdr    <col> <ncols> <names>                           Heatmap.WriteHeader
-//	tablew <col> <maxCols> <maxRows> <script>              TableWriter.WriteRow sequence (+ one footer)
+//	tablew <col> <maxCols> <maxRows> <script>              TableWriter.WriteRow / WriteFooter sequence (+ one footer);
+//	                                                       steps "/"-separated: <row>:<cells> or F<idx>:<hex line>
 //	render histo <col> <uni> <sc> <fmt> <bar> <pct> <maxLines> <keys> <phases>
+//	render histo2 <col> <uni> <sc> <fmt> <bar> <pct> <maxLines> <atLeast> <all> <keys> <phases>   (--atleast, --all)
+//	render reduce <col> <nrows> <ncols> <gnames> <gexprs> <dnames> <dexprs> <pool> <phases>       (cmd/reduce.go table path)
 //	render bars  <col> <uni> <sc> <fmt> <stacked> <barSize> <keys> <subkeys> <phases>
 //	render table <col> <fmt> <rowTot> <colTot> <nrows> <ncols> <rowkeys> <colkeys> <phases>
 //	render heat  <col> <uni> <sc> <fmt> <nrows> <ncols> <fix> <fmin> <fmax> <rowkeys> <colkeys> <phases>
@@ -38,6 +41,7 @@ import (
 	"rare/pkg/aggregation"
 	"rare/pkg/aggregation/sorting"
 	"rare/pkg/color"
+	"rare/pkg/expressions/funclib"
 	"rare/pkg/multiterm"
 	"rare/pkg/multiterm/termformat"
 	"rare/pkg/multiterm/termrenderers"
@@ -174,6 +178,11 @@ func c14Run(f []string) string {
 		if f[4] != "." {
 			for _, st := range strings.Split(f[4], "/") {
 				p := strings.SplitN(st, ":", 2)
+				if strings.HasPrefix(p[0], "F") {
+					idx, _ := strconv.Atoi(p[0][1:])
+					tw.WriteFooter(idx, string(UnHex(p[1])))
+					continue
+				}
 				rn, _ := strconv.Atoi(p[0])
 				tw.WriteRow(rn, UnHexListS(p[1])...)
 			}
@@ -188,11 +197,18 @@ func c14Run(f []string) string {
 
 func c14Render(f []string) string {
 	switch f[0] {
-	case "histo":
-		// col uni sc fmt bar pct maxLines keys phases
+	case "histo", "histo2":
+		// histo:  col uni sc fmt bar pct maxLines keys phases
+		// histo2: col uni sc fmt bar pct maxLines atLeast all keys phases
 		c14Globals(f[1], f[2])
 		maxLines, _ := strconv.Atoi(f[7])
-		keys := UnHexListS(f[8])
+		atLeast, all := int64(0), false
+		rest := f[8:]
+		if f[0] == "histo2" {
+			atLeast, all = c14I64(f[8]), c14Bool(f[9])
+			rest = f[10:]
+		}
+		keys := UnHexListS(rest[0])
 		vt := multiterm.NewVirtualTerm()
 		w := termrenderers.NewHistogram(vt, maxLines)
 		w.ShowBar = c14Bool(f[5])
@@ -201,25 +217,101 @@ func c14Render(f []string) string {
 		w.Formatter = c14Formatter(f[4])
 		counter := aggregation.NewCounter()
 		sorter := c14IdxSorter(keys)
-		for _, ph := range c14Phases(f[9]) {
+		// cmd/histo.go writeHistoOutput
+		writeHistoOutput := func(writer *termrenderers.HistoWriter, count int) {
+			items := counter.ItemsSortedBy(count, sorter)
+			line := 0
+			writer.UpdateTotal(counter.Total())
+			for _, match := range items {
+				count := match.Item.Count()
+				if count >= atLeast {
+					writer.WriteForLine(line, match.Name, count)
+					line++
+				}
+			}
+		}
+		for _, ph := range c14Phases(rest[1]) {
 			for _, sm := range ph {
 				counter.Sample(keys[sm[0]] + c14Sep + strconv.FormatInt(sm[1], 10))
 			}
-			// cmd/histo.go writeHistoOutput (atLeast 0)
-			items := counter.ItemsSortedBy(maxLines, sorter)
-			line := 0
-			w.UpdateTotal(counter.Total())
-			for _, m := range items {
-				w.WriteForLine(line, m.Name, m.Item.Count())
-				line++
-			}
+			writeHistoOutput(w, maxLines)
 			w.WriteFooter(0, "F")
 		}
 		lines := make([]string, vt.LineCount())
 		for i := range lines {
-			lines[i] = c14PctRe.ReplaceAllString(vt.Get(i), "[P%]")
+			lines[i] = vt.Get(i)
+		}
+		if all {
+			// cmd/histo.go --all: a second writer with one line per group into a fresh VirtualTerm
+			vterm := multiterm.NewVirtualTerm()
+			vWriter := termrenderers.NewHistogram(vterm, counter.GroupCount())
+			writeHistoOutput(vWriter, counter.GroupCount())
+			lines = append(lines, "~~")
+			for i := 0; i < vterm.LineCount(); i++ {
+				lines = append(lines, vterm.Get(i))
+			}
+		}
+		for i := range lines {
+			lines[i] = c14PctRe.ReplaceAllString(lines[i], "[P%]")
 		}
 		return "ok " + HexListS(lines)
+	case "reduce":
+		// col nrows ncols gnames gexprs dnames dexprs pool phases
+		c14Globals(f[1], "1")
+		rowCount, _ := strconv.Atoi(f[2])
+		colCount, _ := strconv.Atoi(f[3])
+		gnames, gexprs := UnHexListS(f[4]), UnHexListS(f[5])
+		dnames, dexprs := UnHexListS(f[6]), UnHexListS(f[7])
+		pool := UnHexListS(f[8])
+		aggr := aggregation.NewAccumulatingGroup(funclib.NewKeyBuilder())
+		for i := range gnames {
+			if err := aggr.AddGroupExpr(gnames[i], gexprs[i]); err != nil {
+				return "bad-args " + err.Error()
+			}
+		}
+		for i := range dnames {
+			if err := aggr.AddDataExpr(dnames[i], dexprs[i], "i"); err != nil {
+				return "bad-args " + err.Error()
+			}
+		}
+		sorter := sorting.NameSorter(sorting.ByName)
+		vt := multiterm.NewVirtualTerm()
+		// ---- cmd/reduce.go, table output path
+		table := termrenderers.NewTable(vt, colCount, rowCount)
+		{
+			rowBuf := make([]string, aggr.ColCount())
+			for i, groupCol := range aggr.GroupCols() {
+				rowBuf[i] = color.Wrap(color.Underline+color.BrightYellow, groupCol)
+			}
+			for i, dataCol := range aggr.DataCols() {
+				rowBuf[aggr.GroupColCount()+i] = color.Wrap(color.Underline+color.BrightBlue, dataCol)
+			}
+			table.WriteRow(0, rowBuf...)
+		}
+		for _, ph := range c14Phases(f[9]) {
+			for _, sm := range ph {
+				parts := make([]string, len(sm))
+				for i, x := range sm {
+					parts[i] = pool[x]
+				}
+				aggr.Sample(strings.Join(parts, "\x00"))
+			}
+			for i, group := range aggr.Groups(sorter) {
+				rowBuf := make([]string, aggr.ColCount())
+				data := aggr.Data(group)
+				for idx, item := range group.Parts() {
+					if idx >= aggr.GroupColCount() {
+						break
+					}
+					rowBuf[idx] = color.Wrap(color.BrightWhite, item)
+				}
+				copy(rowBuf[aggr.GroupColCount():], data)
+				table.WriteRow(i+1, rowBuf...)
+			}
+			table.WriteFooter(0, "F0")
+			table.WriteFooter(1, "F1")
+		}
+		return c14Lines(vt)
 	case "bars":
 		// col uni sc fmt stacked barSize keys subkeys phases
 		c14Globals(f[1], f[2])
@@ -505,11 +597,86 @@ func c14Limit(r *Rand) int {
 	}
 }
 
+var c14GroupExprs = []string{"{1}", "{1}", "{2}", "{1}\x00{2}", "{0}", "lit", "", "{3}x", "é{1}", "{2}\x00"}
+var c14DataExprs = []string{"{2}", "{3}", "{.}{2}", "{.}", "{1}", "{0}", "x", "", "{.}+{4}", "\x1b[1m{2}"}
+var c14NamePool = []string{"g", "k", "name", "", "日本", "héllo", "\x1b[31mred\x1b[0m", "\x1b[1", "a b", "n", "sum", "v", "Total", strings.Repeat("w", 30)}
+
+func c14Distinct(r *Rand, pool []string, n int) []string {
+	if n > len(pool) {
+		n = len(pool)
+	}
+	seen := map[string]bool{}
+	var out []string
+	for len(out) < n {
+		k := Pick(r, pool)
+		if !seen[k] {
+			seen[k] = true
+			out = append(out, k)
+		}
+	}
+	return out
+}
+
+// cmd/reduce.go table path: group / data expressions of the template language the driver evaluates
+func c14GenReduce(r *Rand) string {
+	ng, nd := r.Intn(4), r.Intn(4)
+	gnames, dnames := c14Distinct(r, c14NamePool, ng), c14Distinct(r, c14NamePool, nd)
+	gexprs, dexprs := make([]string, ng), make([]string, nd)
+	for i := range gexprs {
+		gexprs[i] = Pick(r, c14GroupExprs)
+		if r.Chance(1, 2) {
+			gexprs[i] = fmt.Sprintf("{%d}", i+1)
+		}
+	}
+	for i := range dexprs {
+		dexprs[i] = Pick(r, c14DataExprs)
+	}
+	np := 1 + r.Intn(8)
+	pool := c14Keys(r, np)
+	if r.Chance(1, 6) {
+		pool[r.Intn(np)] = Pick(r, []string{"a\x00b", "\x00", "x\x00", "\x00\x00y"})
+	}
+	nph := 1 + r.Intn(3)
+	var phases []string
+	for p := 0; p < nph; p++ {
+		n := r.Intn(9)
+		var sm []string
+		for i := 0; i < n; i++ {
+			k := r.Intn(5)
+			if r.Chance(1, 2) {
+				k = ng + 1 + r.Intn(2)
+			}
+			if k == 0 {
+				k = 1
+			}
+			idx := make([]string, k)
+			for j := range idx {
+				idx[j] = fmt.Sprint(r.Intn(np))
+			}
+			sm = append(sm, strings.Join(idx, ":"))
+		}
+		if len(sm) == 0 {
+			phases = append(phases, ".")
+		} else {
+			phases = append(phases, strings.Join(sm, ","))
+		}
+	}
+	return fmt.Sprintf("render reduce %s %d %d %s %s %s %s %s %s", c14B(r), c14Limit(r), c14Limit(r), HexListS(gnames), HexListS(gexprs),
+		HexListS(dnames), HexListS(dexprs), HexListS(pool), strings.Join(phases, "|"))
+}
+
 func c14GenRender(r *Rand) string {
 	col, uni := c14B(r), c14B(r)
 	sc := Pick(r, c14Scalers)
 	fm := Pick(r, []string{"raw", "hi"})
-	switch r.Intn(6) {
+	switch r.Intn(8) {
+	case 6:
+		return c14GenReduce(r)
+	case 7:
+		nk := r.Intn(9)
+		keys := c14Keys(r, nk)
+		return fmt.Sprintf("render histo2 %s %s %s %s %s %s %d %d %s %s %s", col, uni, sc, fm, c14B(r), c14B(r), c14Limit(r),
+			Pick(r, []int64{0, 1, 2, 3, 6, -5, 1000, 0}), c14B(r), HexListS(keys), c14History(r, nk, 0, 1))
 	case 0:
 		nk := r.Intn(9)
 		keys := c14Keys(r, nk)
@@ -601,6 +768,10 @@ func c14GenSmall(r *Rand) string {
 			cells := make([]string, nc)
 			for j := range cells {
 				cells[j] = Pick(r, c14KeyPool)
+			}
+			if r.Chance(1, 6) {
+				steps = append(steps, fmt.Sprintf("F%d:%s", r.Intn(3), HexS(Pick(r, c14KeyPool))))
+				continue
 			}
 			steps = append(steps, fmt.Sprintf("%d:%s", r.Intn(maxRows+2), HexListS(cells)))
 		}
@@ -742,6 +913,11 @@ func c14Corpus() []string {
 		"render heat 0 1 linear hi 5 10 0 0 0 61 - 0:0:1",
 		// F21c: spark with no displayed columns -> index out of range (fixed 9780d5d)
 		"render spark 0 1 linear hi 5 0 0 61 62 0:0:1",
+		// sparkline header measured the column names in bytes (fixed c54b92c)
+		"render spark 0 1 linear hi 5 20 0 72 e697a5e69cac31;e697a5e69cac32;e697a5e69cac33;e697a5e69cac34;e697a5e69cac35;e697a5e69cac36;e697a5e69cac37;e697a5e69cac38 0:0:1,0:1:2,0:2:3,0:3:4,0:4:5,0:5:6,0:6:7,0:7:8",
+		// reduce table: a group key with more parts than group columns (fixed 73473fc; the real CLI is run by extra/C14.py)
+		"render reduce 0 5 5 6b 7b307d . . 61;62 0:1",
+		"render reduce 1 5 5 6b 7b307d 6e 7b2e7d7b327d 61;62 0:1:0,1:1:0",
 	}
 }
 
